@@ -14,7 +14,7 @@ import time
 from fibertree import Fiber, Tensor, Payload
 
 from mc import bfs, core
-from mc.obs import hidden_globals, rawtree, rawfull, rank_index_view, mirror, content
+from mc.obs import hidden_globals, hidden_tensor, rawtree, rawfull, rank_index_view, mirror, content
 from mc.univ import t2, t3, mktree, tree_features, RANK_IDS
 
 LEVEL = "model_checking"
@@ -449,7 +449,7 @@ def step(S, op):
 
 
 def key(S):
-    return (rawfull(S.T.getRoot()), rank_index_view(S.T), hidden_globals())
+    return (rawfull(S.T.getRoot()), rank_index_view(S.T), hidden_globals(), hidden_tensor(S.T))
 
 
 
